@@ -27,7 +27,7 @@ RULE = ("sampler {importance, minipcn, emcee, smc, emcee_smc, blackjax_smc} x pr
         "top-level sample_posterior(rng=), flow seed/key only} x seeds {0,1,VERIF_SEED}; each configuration is executed twice "
         "from scratch with numpy/python/torch global generators re-seeded differently and numpy.random.default_rng / the default "
         "orng.ArrayRNG patched to return differently seeded generators in the two runs (and logging their callers); a subset is "
-        "repeated in a fresh interpreter with a different PYTHONHASHSEED; plus pairs of runs that are handed the very same argument objects (a reused sampler_kwargs dictionary); plus the sample-set operations that take a generator (Samples.rejection_sample, SMCSamples.resample) x {numpy, torch, jax} x {float32, float64} x seeds, twice with differently seeded global sources; plus a zuko proposal loaded from a file (ZukoFlow.load / Aspire.resume_from_file) and then sampled, in two sessions with other global seeds; plus, per sampler x preconditioning, the run of a sampler object that has already completed a different run (other seed, size, options) against the run of a fresh object. non-trivial = run that consumes random numbers after the "
+        "repeated in a fresh interpreter with a different PYTHONHASHSEED; plus pairs of runs that are handed the very same argument objects (a reused sampler_kwargs dictionary); plus the sample-set operations that take a generator (Samples.rejection_sample, SMCSamples.resample) x {numpy, torch, jax} x {float32, float64} x seeds, twice with differently seeded global sources; plus a zuko proposal loaded from a file (ZukoFlow.load / Aspire.resume_from_file) and then sampled, in two sessions with other global seeds; plus, per sampler x preconditioning, the run of a sampler object that has already completed a different run (other seed, size, options) against the run of a fresh object; plus the same seeded fit + importance run twice in one process with an unrelated object built in between (zuko flow float64 / float32 / continuous, flowjax flow, Aspire instance of another dtype). non-trivial = run that consumes random numbers after the "
         "initial draw (everything except pure importance sampling with an analytic proposal)")
 ASSUMPTIONS = [
     "stub kernels draw only from the generator object they are handed (minipcn) / from their own RandomState (emcee, like the real package)",
@@ -456,6 +456,63 @@ def run_loaded_flow(cfg):
     return r.dump()
 
 
+def run_other_object_between(cfg):
+    """The same seeded fit + importance run twice in one process, with an unrelated object built in between (a flow of
+    another precision or back-end, an Aspire instance of another dtype): what another object does to process-wide
+    state must not reach a run whose explicit sources are the same."""
+    import torch
+    from aspire import Aspire
+    from aspire.flows import get_flow_wrapper
+    from aspire.samples import Samples
+    from env.targets import Monitor
+
+    between, seed = cfg["between"], cfg["seed"]
+    r = Report()
+    case = {"other_object_between": True, "cfg": cfg}
+    r.case(explorer.digest(case), nontrivial=True)
+    p = rh.problem("none")
+    outs = []
+    try:
+        for part in (1, 2):
+            torch.manual_seed(3000)
+            np.random.seed(1000)
+            mon = Monitor(p["like"], p["prior"], "numpy", keep_points=False)
+            a = Aspire(log_likelihood=mon.log_likelihood, log_prior=mon.log_prior, dims=2, parameters=p["parameters"], prior_bounds=p["bounds"],
+                       xp=get_xp("numpy"), flow_backend="zuko", seed=seed, hidden_features=[8], transforms=1)  # dtype left to the default
+            g = np.random.default_rng(seed + 5)
+            xs = np.stack([g.normal(1.0, 1.0, 64), g.normal(2.0, 1.2, 64)], axis=1)
+            a.fit(Samples(x=xs, parameters=p["parameters"], xp=get_xp("numpy")), n_epochs=1, batch_size=32)
+            res = a.sample_posterior(n_samples=8, sampler="importance")
+            outs.append(digest_arrays([res.x, res.log_q, res.log_w, res.log_evidence]) + "/" + str(tonp(res.x).dtype))
+            if part == 1:
+                if between in ("zuko-float64", "zuko-float32"):
+                    F, _ = get_flow_wrapper("zuko")
+                    F(dims=3, seed=seed + 9, dtype=between.split("-")[1], hidden_features=[4], transforms=1)
+                elif between == "zuko-flow-matching-float64":
+                    F, _ = get_flow_wrapper("zuko", flow_matching=True)
+                    F(dims=2, seed=seed + 9, dtype="float64", hidden_features=[4])
+                elif between == "flowjax-float64":
+                    import jax
+
+                    F, _ = get_flow_wrapper("flowjax")
+                    F(dims=2, key=jax.random.key(seed), dtype="float64", nn_width=4, nn_depth=1, flow_layers=1)
+                elif between == "aspire-float64-init_flow":
+                    b = Aspire(log_likelihood=mon.log_likelihood, log_prior=mon.log_prior, dims=2, parameters=p["parameters"],
+                               prior_bounds=p["bounds"], xp=get_xp("numpy"), flow_backend="zuko", seed=seed + 3, dtype="float64",
+                               hidden_features=[4], transforms=1)
+                    b.init_flow()
+    except Exception as e:
+        from env import exc_site
+
+        r.violation(f"C20/other-object-between/raises/{type(e).__name__}/{exc_site(e)}/{between}", repr(e)[:200], case)
+        return r.dump()
+    r.outcomes.add(outs[0])
+    if outs[0] != outs[1]:
+        r.violation(f"C20/other-object-between/not-reproducible/{between}", {"first": outs[0], "second": outs[1]}, case)
+    r.sample(case)
+    return r.dump()
+
+
 def run_sample_ops(cfg):
     """The sample-set operations that take a generator (rejection_sample, SMCSamples.resample) in every namespace:
     twice with the same seeded generator and differently seeded global sources (numpy, python, torch)."""
@@ -561,6 +618,8 @@ def run(tier, seed, workers):
     for route in ("resume_from_file", "ZukoFlow.load"):
         for sd in sorted({0, 1, seed}) if tier == "thorough" else (0, 1):
             jobs.append(("run_loaded_flow", {"route": route, "seed": sd}))
+    for between in ("zuko-float64", "zuko-float32", "zuko-flow-matching-float64", "flowjax-float64", "aspire-float64-init_flow"):
+        jobs.append(("run_other_object_between", {"between": between, "seed": 0}))
     for op, ns, dt in itertools.product(("rejection", "resample"), ("numpy", "torch", "jax"), ("float64", "float32")):
         for sd in sorted({0, 1, seed}):
             if tier == "quick" and sd == 1:
@@ -583,6 +642,9 @@ def replay(case):
         return r
     if case.get("loaded_flow"):
         r.merge(run_loaded_flow(case["cfg"]))
+        return r
+    if case.get("other_object_between"):
+        r.merge(run_other_object_between(case["cfg"]))
         return r
     if case.get("reused_sampler"):
         r.merge(run_reused_sampler(case["cfg"]))
